@@ -36,6 +36,12 @@ ALLOW = [
      "reads the operand's status only; returns an empty Impl carrying that status"),
     (r"Boolean3::Result$", r"^if \( inP_ \. IsEmpty \( \) \)", "indep",
      "operand emptiness only; returns a copy of an operand or an empty Impl, never the constructor's tables"),
+    (r"^SizeOutput$", r"^if \( i12 \. size \( \) >= 1e5 \)$", "neutral",
+     "reads the size of an input vector to pick a policy; both branches are ctx-aware loops again"),
+    (r"^AddNewEdgeVerts$", r"^if \( p1q2 \. size \( \) > kParallelThreshold \)$", "neutral",
+     "reads the size of an input vector to pick the parallel path"),
+    (r"^Winding03_$", r"^componentsShared \. combine_each \(", "neutral",
+     "merges thread-local sets into a local set; a skipped chunk only makes it smaller; discarded by the check that follows"),
     (r"Boolean3::Boolean3$", r"^if \( xv12_ \. x12 \. size \( \) > INT_MAX_SZ \|\| xv21_ \. x12 \. size \( \) > INT_MAX_SZ \)", "neutral",
      "reads two sizes; on cancel Intersect12 returned an empty record, so the branch is not taken and nothing partial is read"),
     (r"Boolean3::Result$", r"^outR \. IncrementMeshIDs \( \) ;$", "neutral",
@@ -53,6 +59,12 @@ ALLOW = [
      "wraps the (closed) result leaf; status is carried, no geometry is read (lazy transform)"),
     (r"Impl::Minkowski$", r"^return tree ;$", "neutral", "returns the closed tree handle"),
 ]
+
+# Object-level functions: they hand around status-carrying handles (Manifold, CsgLeafNode); a cancellation
+# observed below them surfaces as an object with status Cancelled, which every consumer forwards (status
+# propagation is property C09; checked here dynamically for every injected k).  Their own check sites are
+# still tabulated; only the "unchecked raw output" analysis stops at this boundary.
+STATUS_LEVEL = r"^(SimpleBoolean|BatchBoolean|BatchUnion|CsgOpNode::ToLeafNode|Manifold::GetCsgLeafNode|Manifold::Impl::Minkowski(::evalBatch)?|MakeSmoothImpl)$"
 
 NOOP = re.compile(r"^(ZoneScoped ;|ZoneScopedN \(|PRINT \(|DEBUG_ASSERT \(|\( void \) \w+ ;|;$)")
 DECL = re.compile(r"^(?:static |const |constexpr |thread_local |mutable |typename )*"
@@ -448,6 +460,9 @@ class Analysis:
             if re.match(r"^if \( auto c = phase \( __LINE__ \) \) return \* c ;$", s.text):
                 return "AbortF"
             return None
+        if s.kind == "if" and re.match(r"^if \( auto c = phase \( __LINE__ \) \)$", s.text) and s.els is None and \
+                s.then.kind == "simple" and s.then.text == "return * c ;":
+            return "AbortF"
         if s.kind == "if" and re.match(r"^if \( (?:manifold :: )?IsCancelled \( [\w_.>-]+(?: \( \))? \) \)$", s.text) and s.els is None:
             body = s.then
             txt = body.text if body.kind == "simple" else " ".join(x.text for x in body.body) if body.kind == "block" else ""
@@ -478,6 +493,8 @@ class Analysis:
 
     # ---- closedness
     def closed(self, key):
+        if re.search(STATUS_LEVEL, self.fns[key]["name"]):
+            return True
         if key in self.closed_memo:
             return self.closed_memo[key]
         self.closed_memo[key] = False       # cycles: assume open
@@ -660,6 +677,8 @@ def special_checks(repo, cfg, checks):
                 L = line.strip()
                 if f == "parallel.h":
                     checks["%s:%d" % (f, ln)] = "LoopChunk"
+                elif re.search(r"!\s*IsCancelled\(", L) and not re.search(r"\breturn\b", L):
+                    checks["%s:%d" % (f, ln)] = "Observe"      # guards a block; no early exit
                 elif f == "boolean_result.cpp" and re.match(r"if \(IsCancelled\(ctx\)\) return;\s*$", L) and "partial publication" in open(p).read().split("\n")[ln - 1]:
                     checks["%s:%d" % (f, ln)] = "Observe"
                 elif f == "execution_impl.cpp":
@@ -684,7 +703,9 @@ def phase_table(repo, an):
                         if s.kind == "simple":
                             c += 1 if re.match(pat, s.text) else 0
                         elif s.kind == "block": c += walk(s.body)
-                        elif s.kind == "if": c += walk([s.then, s.els])
+                        elif s.kind == "if":
+                            c += 1 if re.match(pat, s.text + " " + (s.then.text if s.then is not None and s.then.kind == "simple" else "")) else 0
+                            c += walk([s.then, s.els])
                         else: c += walk([s.body])
                     return c
                 n += walk(f["body"])
@@ -708,6 +729,12 @@ def reset_order(repo):
         body = src[m.end():m.end() + 2500]
         seq = re.findall(r"ctx->(donePhases|totalPhases|doneBooleans|totalBooleans)\s*\.\s*store", body)
         out[fn] = seq[:4]
+        if fn == "GetCsgLeafNode":
+            # completion top-up: after ToLeafNode, donePhases := totalPhases under !IsCancelled
+            after = body.split("ToLeafNode", 1)[1] if "ToLeafNode" in body else ""
+            after = after.split("return", 1)[0]
+            out["topup"] = bool(re.search(r"!\s*IsCancelled\s*\(\s*ctx\s*\)", after) and
+                                re.search(r"donePhases\s*\.\s*store\s*\(\s*ctx->totalPhases\s*\.\s*load", re.sub(r"\s+", " ", after)))
     return out
 
 
@@ -755,11 +782,13 @@ def translate(repo, out_v=None):
     coq.append(";\n".join("  (\"%s\", %d, %d)" % (c, v if v is not None else -1, n) for c, v, n in res["phase_table"]))
     coq.append("]%Z.\n")
     ro = reset_order(repo)
+    res["topup"] = ro.pop("topup", False)
     res["reset_order"] = ro
     def enc(seq):
         return "[" + "; ".join("RDone" if x.startswith("done") else "RTotal" for x in seq) + "]"
     coq.append("Definition reset_order_tree : list rstep := %s." % enc(ro["GetCsgLeafNode"]))
     coq.append("Definition reset_order_factory : list rstep := %s." % enc(ro["ResetForStaticFactory"]))
+    coq.append("Definition completion_topup : bool := %s." % ("true" if res["topup"] else "false"))
     coq.append("Definition k_phases_per_boolean : nat := %d." % (res["consts"].get("kPhasesPerBoolean") or 0))
     coq.append("Definition boolean_phase_sites : nat := %d.\n" % [n for c, v, n in res["phase_table"] if c == "kPhasesPerBoolean"][0])
     txt = "\n".join(coq) + "\n"
